@@ -175,7 +175,7 @@ def cover_run(mod, fn, kwargs):
     from xv import rt
 
     entered = set()
-    prefix = "/repo/src/experimaestro"
+    prefix = str(rt.REPO / "src/experimaestro")
 
     def prof(frame, event, arg):
         if event == "call":
